@@ -255,6 +255,79 @@ fn class_shape(seed: u64, n: usize) -> Outcome {
     Outcome { stats: st, violation: None, note: None }
 }
 
+/// Shape M: the same 66 000 single-character patterns spread over 66 modes of 1 000 patterns each.
+/// No mode is large, but the scanner as a whole registers more than 65 536 character classes (the
+/// registry is shared by all modes) - "the size of a pattern set does not affect correctness". Builds
+/// in seconds, so it is part of the quick tier.
+fn many_modes_class_shape(seed: u64, n_modes: usize, per_mode: usize) -> Outcome {
+    let mut st = Stats::default();
+    let tag = format!("M{}x{}", n_modes, per_mode);
+    let mut rng = Rng::new(seed ^ 0x4D4F44);
+    let n = n_modes * per_mode;
+    let mut chars: Vec<char> = (0..n).map(|i| char::from_u32(0x20000 + 2 * i as u32).unwrap()).collect();
+    rng.shuffle(&mut chars);
+    let modes: Vec<scnr::ScannerMode> = (0..n_modes)
+        .map(|m| {
+            let pats: Vec<scnr::Pattern> = (0..per_mode).map(|j| scnr::Pattern::new(chars[m * per_mode + j].to_string(), m * per_mode + j + 1)).collect();
+            scnr::ScannerMode::new(&format!("M{}", m), pats, Vec::<(usize, usize)>::new())
+        })
+        .collect();
+    let case = json!({"kind": "c17", "shape": tag, "seed": seed});
+    let t0 = Instant::now();
+    let built = sut(|| scnr::ScannerBuilder::new().add_scanner_modes(&modes).build_uncached());
+    st.add(&format!("build_seconds_{}", tag), t0.elapsed().as_secs());
+    let scanner = match built {
+        Err(p) => return Outcome { stats: st, violation: Some(Violation::new(format!("{}: building panicked: {}", tag, p), case)), note: None },
+        Ok(Err(e)) => {
+            st.count("large_pattern_set_rejected_with_error");
+            return Outcome { stats: st, violation: None, note: Some(format!("{} rejected: {}", tag, e)) };
+        }
+        Ok(Ok(s)) => s,
+    };
+    st.count("scanners_with_more_than_65536_character_classes_built");
+    st.sample(json!({"shape": tag, "modes": n_modes, "patterns_per_mode": per_mode, "character_classes": n, "build_seconds": t0.elapsed().as_secs()}));
+    // every mode: a probe of 30 of its own characters mixed with characters of other modes
+    for m in 0..n_modes {
+        let own: Vec<usize> = (0..30).map(|_| m * per_mode + rng.below(per_mode)).collect();
+        let mut input = String::new();
+        let mut exp: Vec<Tok> = Vec::new();
+        for (k, idx) in own.iter().enumerate() {
+            let c = chars[*idx];
+            exp.push(Tok { tt: idx + 1, start: input.len(), end: input.len() + c.len_utf8() });
+            input.push(c);
+            if k % 3 == 0 {
+                // a character that belongs to another mode: unmatched here
+                let other = chars[(((m + 1 + rng.below(n_modes - 1)) % n_modes) * per_mode) + rng.below(per_mode)];
+                input.push(other);
+            }
+        }
+        st.count("probes");
+        match scan_all(&scanner, &input, 0, m) {
+            Err(e) => return Outcome { stats: st, violation: Some(Violation::new(format!("{}: {} in mode {}", tag, e, m), case)), note: None },
+            Ok(got) => {
+                if got != exp {
+                    let first_bad = got.iter().zip(exp.iter()).position(|(a, b)| a != b).unwrap_or(got.len().min(exp.len()));
+                    return Outcome {
+                        stats: st,
+                        violation: Some(
+                            Violation::new(
+                                format!(
+                                    "{}: a scanner with {} single-character patterns in {} modes was built without error but mode {} tokenizes its probe into {} tokens instead of {} (first difference at token #{}: {:?} instead of {:?})",
+                                    tag, n, n_modes, m, got.len(), exp.len(), first_bad, got.get(first_bad), exp.get(first_bad)
+                                ),
+                                case,
+                            )
+                            .with_signature(format!("large-pattern-set mis-tokenization {}", tag)),
+                        ),
+                        note: None,
+                    };
+                }
+            }
+        }
+    }
+    Outcome { stats: st, violation: None, note: None }
+}
+
 /// Shape R: a{N}b.
 fn repetition_shape(n: usize) -> Outcome {
     let mut st = Stats::default();
@@ -353,6 +426,7 @@ pub fn c17(tier: Tier) -> i32 {
     // small keyword shapes below the boundary with the same probes (sanity of the probe oracle)
     jobs.push(Box::new(move || keyword_shape(seed + 1, 500, 6, false, "K500x6")));
     jobs.push(Box::new(move || class_shape(seed + 6, 3_000)));
+    jobs.push(Box::new(move || many_modes_class_shape(seed + 7, 66, 1_000)));
     if tier == Tier::Thorough {
         jobs.push(Box::new(move || keyword_shape(seed + 2, 16_400, 4, false, "K16400x4")));
         jobs.push(Box::new(move || keyword_shape(seed + 3, 8_300, 8, true, "K8300x8_shared_type")));
@@ -394,7 +468,7 @@ pub fn c17(tier: Tier) -> i32 {
         }
     }
     let mut report = Report::new(
-        "fixed entry price: every construction that crosses 2^16 states needs >= 65537 states through builders that are quadratic or worse. Quick: (K) one mode of 8300 distinct random 8-letter keywords with distinct token types (66401 states before and after minimization, i.e. more than 2^16 partition groups) probed with every keyword (one token, own type, span 0..8), keywords minus their last letter, keywords with another last letter and words spliced from the head of one keyword and the tail of another (nothing), and concatenations; a{N}b for N in {1500, 3000, 6000} a 500-keyword mode and a mode of 3000 single-character patterns below the boundary; the minimizer's (before, after) pair of the large mode also goes through the C03 pair checker at symbol level. Thorough adds 16400x4-letter and 4100x16-letter keyword modes, an 8300-keyword mode with one shared token type, a mode of 66000 single-character patterns (supplementary-plane characters, distinct token types: 66001 states, 66000 character classes and accepting groups), and a{66000}b with inputs a^N b, a^(N-1) b, a^(N+1) b, a^(N-65536) b. A mode that is rejected with an error is accepted by the statement and counted. The hook reports the state counts actually reached.",
+        "fixed entry price: every construction that crosses 2^16 states needs >= 65537 states through builders that are quadratic or worse. Quick: (K) one mode of 8300 distinct random 8-letter keywords with distinct token types (66401 states before and after minimization, i.e. more than 2^16 partition groups) probed with every keyword (one token, own type, span 0..8), keywords minus their last letter, keywords with another last letter and words spliced from the head of one keyword and the tail of another (nothing), and concatenations; a{N}b for N in {1500, 3000, 6000} a 500-keyword mode and a mode of 3000 single-character patterns below the boundary; (M) 66 000 single-character patterns spread over 66 modes (no mode is large, but the scanner registers more than 65 536 character classes), every mode probed; the minimizer's (before, after) pair of the large mode also goes through the C03 pair checker at symbol level. Thorough adds 16400x4-letter and 4100x16-letter keyword modes, an 8300-keyword mode with one shared token type, a mode of 66000 single-character patterns (supplementary-plane characters, distinct token types: 66001 states, 66000 character classes and accepting groups), and a{66000}b with inputs a^N b, a^(N-1) b, a^(N+1) b, a^(N-65536) b. A mode that is rejected with an error is accepted by the statement and counted. The hook reports the state counts actually reached.",
     )
     .floor("modes_with_more_than_65535_states_before_minimization", 1)
     .floor("probes", 1_000)
